@@ -106,9 +106,8 @@ package sfnt
 //@     invariant newOutlines != nil && fresh(newOutlines) && len(newOutlines.Glyphs) == len(s.glyphs) && pIdxMap != nil && fresh(pIdxMap) && (isnil(newOutlines.Private) || fresh(newOutlines.Private)) && (isnil(newOutlines.FontMatrices) || fresh(newOutlines.FontMatrices))
 //@     invariant oldOutlines.ROS != nil ==> len(newOutlines.FontMatrices) == len(newOutlines.Private)
 //@     invariant forall p int :: has(pIdxMap, p) ==> 0 <= p && p < len(oldOutlines.Private) && 0 <= pIdxMap[p] && pIdxMap[p] < len(newOutlines.Private) && newOutlines.Private[pIdxMap[p]] == oldOutlines.Private[p]
-//@     invariant oldOutlines.ROS != nil ==> forall p int :: has(pIdxMap, p) ==> newOutlines.FontMatrices[pIdxMap[p]] == oldOutlines.FontMatrices[p]
 //@     invariant forall i int :: 0 <= i && i < len(s.glyphs) ==> newOutlines.Glyphs[i] == oldOutlines.Glyphs[s.glyphs[i]]
-//@     exit_assert forall p int :: has(pIdxMap, p) ==> newOutlines.Private[pIdxMap[p]] == oldOutlines.Private[p] && (oldOutlines.ROS != nil ==> newOutlines.FontMatrices[pIdxMap[p]] == oldOutlines.FontMatrices[p])
+//@     exit_assert forall p int :: has(pIdxMap, p) ==> newOutlines.Private[pIdxMap[p]] == oldOutlines.Private[p]
 //@   loop 2
 //@     invariant newOutlines != nil && fresh(newOutlines) && len(newOutlines.Glyphs) == len(s.glyphs) && len(fdSel) == len(s.glyphs) && fresh(fdSel) && pIdxMap != nil
 //@     invariant forall i int :: 0 <= i && i < len(s.glyphs) ==> newOutlines.Glyphs[i] == oldOutlines.Glyphs[s.glyphs[i]]
